@@ -262,12 +262,22 @@ class ManagedEnv(Env):
                 if not expire:
                     outs.append(('ret', st3, PENDING)); continue
                 f3 = M.deref(st3, fref); inner = f3.f[0]
-                st3.logev('env', 'timer', f3.f[3].v, 'expired')
+                st3.logev('env', 'timer', f3.f[3].v, 'expired', s.timer_kind(inner))
                 M.write(st3, fref, Agg('TimeoutFut', [UNINIT, f3.f[1], DONE, f3.f[3]]))
                 M.push_k(th3, 'after', 'const', (ready(NONE),))
                 M.push_k(th3, 'drop', (inner,), None)
                 outs.append(('push', st3))
         return outs
+
+    def timer_kind(s, v):
+        if isinstance(v, Agg):
+            if v.ty == 'Acquire': return 'wait'
+            if v.ty == 'CreateFut': return 'create'
+            if v.ty == 'RecycleFut': return 'recycle'
+            for x in v.f.values():
+                r = s.timer_kind(x)
+                if r: return r
+        return None
 
     def d_TimeoutFut(s, M, st, th, v): return None     # drop the inner future (field 0) if still present
 
